@@ -46,3 +46,39 @@ def units(tier, extra_gost=True):
             for (lab, defs, cfl) in GOST_EXTRA:
                 res.append((h, lab, common.hdr_unit("%s:%s" % (h, lab), t["hdr"], defs, cfl)))
     return res
+
+
+# ---- build witnesses: a translation unit that instantiates the public entry points (unused static inline code is never
+# ---- compiled, so including the header alone proves nothing about gcc's target checks)
+WITNESS_BODY = {
+    "md5": "md5_ctx_t c; md5_init(&c); md5_update(&c, m, n); md5_final(&c, out);",
+    "sha1": "sha1_ctx_t c; sha1_init(&c); sha1_update(&c, m, n); sha1_final(&c, out);",
+    "sha2": "sha2_ctx_t c; sha2_init(256, &c); sha2_update(&c, m, n); sha2_final(&c, out);",
+    "gost3411": "gost3411_2012_ctx_t c; gost3411_2012_init(256, &c); gost3411_2012_update(&c, m, n); gost3411_2012_final(&c, out);",
+}
+ISA_QUICK = [(), ("-mssse3",), ("-msha",)]
+ISA_THOROUGH = [(), ("-msse3",), ("-mssse3",), ("-msse4.1",), ("-mavx",), ("-mavx2",), ("-msha",), ("-msha", "-mssse3", "-msse4.1"), ("-mavx2", "-msha")]
+
+
+def build_witnesses(tier):
+    """[(label, compiler argv tail, source text)]: gcc and clang, -O2, every ISA set x every hash header, plus the
+    Streebog small-table option in an ordinary (SIMD-capable) build"""
+    import os
+    from rules import driver
+    out = []
+    isas = ISA_THOROUGH if tier == "thorough" else ISA_QUICK
+    ccs = ("gcc", "clang") if tier == "thorough" else ("gcc",)
+    for h, t in HASHES.items():
+        for isa in isas:
+            for cc in ccs:
+                for opt in (("-O2",) if tier != "thorough" else ("-O2", "-O3")):
+                    txt = driver.PRELUDE + '#include "%s"\nvoid lcb_witness(const uint8_t *m, size_t n, uint8_t *out);\nvoid lcb_witness(const uint8_t *m, size_t n, uint8_t *out) { %s }\n' % (
+                        t["hdr"], WITNESS_BODY[h])
+                    out.append(("%s:%s:%s:%s" % (h, cc, opt, "+".join(isa) or "default"), [cc, opt] + list(isa), txt))
+    for defs in (("GOST3411_2012_USE_SMALL_TABLES",), ("GOST3411_2012_USE_SMALL_TABLES", "GOST3411_2012_USE_SMALL_TABLES_TABLE_TAU")):
+        for isa in ((), ("-mavx2",)):
+            for cc in ccs:
+                txt = driver.PRELUDE + "".join("#define %s 1\n" % d for d in defs) + '#include "%s"\nvoid lcb_witness(const uint8_t *m, size_t n, uint8_t *out);\nvoid lcb_witness(const uint8_t *m, size_t n, uint8_t *out) { %s }\n' % (
+                    HASHES["gost3411"]["hdr"], WITNESS_BODY["gost3411"])
+                out.append(("gost3411:%s:%s:%s" % (cc, "+".join(defs)[14:], "+".join(isa) or "default"), [cc, "-O2"] + list(isa), txt))
+    return out
